@@ -8,6 +8,7 @@ import (
 	"fmt"
 	"go/token"
 	"go/types"
+	"strings"
 
 	"golang.org/x/tools/go/ssa"
 )
@@ -17,7 +18,9 @@ type c15 struct {
 	obs []Obligation
 }
 
-func (c *c15) good(key, desc string, sites ...string) { c.obs = append(c.obs, good(key, desc, sites...)) }
+func (c *c15) good(key, desc string, sites ...string) {
+	c.obs = append(c.obs, good(key, desc, sites...))
+}
 func (c *c15) bad(key, desc, detail string, sites ...string) {
 	c.obs = append(c.obs, bad(key, desc, detail, sites...))
 }
@@ -228,7 +231,10 @@ func (c *c15) sum(egc, ef, ns, addE *ssa.Function) map[string]int {
 		}():
 			roles["sel"] = i
 			selVal = a
-		case func() bool { cc, ok := callTo(a, ns); return ok && recvFieldAddr(cc.Call.Args[0], recv, "selectorsInfo") }():
+		case func() bool {
+			cc, ok := callTo(a, ns)
+			return ok && recvFieldAddr(cc.Call.Args[0], recv, "selectorsInfo")
+		}():
 			roles["nsel"] = i
 		case paramIndex(egc, a) > 0:
 			roles["vars"] = i
@@ -822,4 +828,122 @@ func (c *c15) numSelectors(ns *ssa.Function) {
 		}
 	}
 	c.bad(key, desc, "NumSelectors does not return len(s.groups)", site)
+}
+
+// ---- parameter relevance (C08/O8.4, C07/O7.4): every value an arithmetic gadget returns is computed from each of
+// its field-typed operands. A return that ignores an operand (an early `return Zero` on some path, an accumulator
+// dropped) cannot equal the mathematical result for all operands. Exceptions are tabled with their reason.
+
+// dependsOn: the SSA value v is computed (through data flow, φ, calls and local memory) from the parameter p
+func dependsOn(v ssa.Value, p *ssa.Parameter, seen map[ssa.Value]bool) bool {
+	if v == nil || seen[v] {
+		return false
+	}
+	seen[v] = true
+	if v == ssa.Value(p) {
+		return true
+	}
+	switch x := v.(type) {
+	case *ssa.Alloc:
+		// whatever is stored into the local (or its parts)
+		var walk func(a ssa.Value) bool
+		walk = func(a ssa.Value) bool {
+			refs := a.Referrers()
+			if refs == nil {
+				return false
+			}
+			for _, r := range *refs {
+				switch y := r.(type) {
+				case *ssa.Store:
+					if y.Addr == a && dependsOn(y.Val, p, seen) {
+						return true
+					}
+				case *ssa.IndexAddr:
+					if y.X == a && walk(y) {
+						return true
+					}
+				case *ssa.FieldAddr:
+					if y.X == a && walk(y) {
+						return true
+					}
+				}
+			}
+			return false
+		}
+		return walk(x)
+	case *ssa.IndexAddr:
+		return dependsOn(x.X, p, seen) || dependsOn(x.Index, p, seen)
+	case *ssa.FieldAddr:
+		return dependsOn(x.X, p, seen)
+	}
+	if ins, ok := v.(ssa.Instruction); ok {
+		for _, op := range ins.Operands(nil) {
+			if op != nil && *op != nil && dependsOn(*op, p, seen) {
+				return true
+			}
+		}
+	}
+	return false
+}
+
+var relevanceExceptions = map[string]string{
+	"(*Chip).ExpExtension": "a^0 = 1 and the loop-free small cases return constants or the operand itself by definition",
+}
+
+func rulesParamRelevance(cx *Ctx, prop string, filter func(name string) bool) []Obligation {
+	P := cx.P
+	var obs []Obligation
+	n := 0
+	for _, fn := range P.ModuleFuncsSorted() {
+		if fnPkgShort(fn) != "goldilocks" || fn.Signature.Recv() == nil || len(fn.Blocks) == 0 || fn.Object() == nil || !fn.Object().Exported() {
+			continue
+		}
+		name := strings.TrimPrefix(P.FnName(fn), "goldilocks.")
+		short := fn.Name()
+		if !filter(short) {
+			continue
+		}
+		// operands: parameters of type Variable / QuadraticExtensionVariable (and slices / arrays of them)
+		var operands []*ssa.Parameter
+		for i, p := range fn.Params {
+			if i == 0 {
+				continue
+			}
+			if strings.Contains(p.Type().String(), "goldilocks.Variable") || strings.Contains(p.Type().String(), "QuadraticExtension") {
+				operands = append(operands, p)
+			}
+		}
+		if len(operands) == 0 || fn.Signature.Results().Len() == 0 {
+			continue
+		}
+		n++
+		key := fmt.Sprintf("%s/relevance/%s", prop, short)
+		desc := "every value the gadget returns is computed from each of its field operands (no return path ignores an operand)"
+		if why, ok := relevanceExceptions["(*Chip)."+short]; ok {
+			obs = append(obs, Obligation{Key: key, Desc: desc, Status: INFO, Detail: "exempt: " + why})
+			continue
+		}
+		bad1 := ""
+		for _, b := range fn.Blocks {
+			ret, ok := b.Instrs[len(b.Instrs)-1].(*ssa.Return)
+			if !ok || len(ret.Results) == 0 {
+				continue
+			}
+			for _, p := range operands {
+				if !dependsOn(ret.Results[0], p, map[ssa.Value]bool{}) {
+					bad1 = fmt.Sprintf("the value returned at %s does not depend on operand %s", P.Pos(ret.Pos()), p.Name())
+				}
+			}
+		}
+		_ = name
+		if bad1 != "" {
+			obs = append(obs, bad(key, desc, bad1, P.FnName(fn)))
+		} else {
+			obs = append(obs, good(key, desc, P.FnName(fn)))
+		}
+	}
+	if n == 0 {
+		obs = append(obs, undecided(prop+"/relevance/floor", "arithmetic gadgets found", "no gadget matched"))
+	}
+	return obs
 }
